@@ -477,7 +477,7 @@ func ruleL16(p *Prog, r *Report) {
 						}
 					}
 					// a private constructor whose every call result becomes the root of a handle builds roots
-					if _, isPrm := canon(v).(*ssa.Parameter); isPrm && len(rootVals) == 2 {
+					if f.Object() != nil && !f.Object().Exported() && len(rootVals) == 2 {
 						cs := p.CallersOf(f)
 						all := len(cs) > 0
 						for _, c := range cs {
